@@ -68,7 +68,17 @@ def build_pdf(case):
             d[b"Resources"] = alt
         elif f.get("own"):
             d[b"Resources"] = res
-        objs[fobj[name]] = W.Stream(d, TM.ser_prog(f["ops"]))
+        ops = f["ops"]
+        if f.get("rebind"):
+            # the form's own resources bind its *own* name to the (other) form it invokes: producers number the
+            # resources of every stream from zero, so an inner /Fm0 that is not the outer /Fm0 is common
+            targets = {o[1] for o in ops if o[0] == "Do"}
+            if len(targets) == 1 and name not in targets:
+                own_res = dict(res)
+                own_res[b"XObject"] = {name.encode(): W.R(fobj[targets.pop()])}
+                d[b"Resources"] = own_res
+                ops = [("Do", name) if o[0] == "Do" else o for o in ops]
+        objs[fobj[name]] = W.Stream(d, TM.ser_prog(ops))
     objs[1] = W.D(Type=W.N("Catalog"), Pages=W.R(2))
     objs[2] = W.D(Type=W.N("Pages"), Kids=[W.R(3)], Count=1)
     objs[4] = W.Stream({}, TM.ser_prog(case["prog"]))
@@ -381,7 +391,8 @@ def cases(draw):
         # /Resources falls back to the page's in ISO 32000-1 and to its caller's in pdfminer: the two coincide otherwise)
         callable_names = [(nm, nd) for nm, nd in names if forms[nm]["own"]] if alt else list(names)
         ops = draw(block(1, callable_names, need, alt))
-        forms[name] = {"matrix": draw(st.one_of(st.just(TM.I6), MAT)), "ops": ops, "own": own, "alt": alt, "bbox0": draw(st.booleans())}
+        forms[name] = {"matrix": draw(st.one_of(st.just(TM.I6), MAT)), "ops": ops, "own": own, "alt": alt, "bbox0": draw(st.booleans()),
+                       "rebind": own and not alt and draw(st.booleans())}
         names.append((name, need))
     pre = draw(st.sampled_from([None, None, 0, 1, 2, 3]))
     return {"prog": draw(block(0, names, [1, 1])), "forms": forms, "prepage": pre}
